@@ -55,6 +55,7 @@ pub struct World {
     /// transaction ids of queries sent by real nodes, `#k` by first appearance
     /// (owner node, id bytes): two nodes may draw the same 8 bytes
     names: Vec<(usize, Vec<u8>)>,
+    name_idx: HashMap<(usize, Vec<u8>), usize>,
     known: HashSet<(usize, Vec<u8>)>,
     /// tokens seen in replies of real nodes, `K<n>` by first appearance
     toks: Vec<Vec<u8>>,
@@ -70,7 +71,7 @@ impl World {
     fn new() -> World {
         let notify = Arc::new(Notify::new());
         btdht::verif::trace_enable(Some(notify.clone()));
-        World { clock: VClock::start(), notify, nodes: BTreeMap::new(), by_addr: HashMap::new(), names: vec![], known: HashSet::new(), toks: vec![], tok_known: HashSet::new(), last: vec![] }
+        World { clock: VClock::start(), notify, nodes: BTreeMap::new(), by_addr: HashMap::new(), names: vec![], name_idx: HashMap::new(), known: HashSet::new(), toks: vec![], tok_known: HashSet::new(), last: vec![] }
     }
     pub fn now(&self) -> u128 { self.clock.now_ns() }
 
@@ -146,7 +147,7 @@ impl World {
             if open == b'{' {
                 let (o, h) = rest[i + 1..j].split_once(':').unwrap_or(("0", ""));
                 let key = (o.parse::<usize>().unwrap_or(0), unhex(h).unwrap_or_default());
-                let k = match self.names.iter().position(|n| *n == key) { Some(k) => k, None => { self.names.push(key); self.names.len() - 1 } };
+                let k = match self.name_idx.get(&key) { Some(k) => *k, None => { self.names.push(key.clone()); self.name_idx.insert(key, self.names.len() - 1); self.names.len() - 1 } };
                 res.push_str(&format!("#{k}"));
             } else {
                 let bytes = unhex(&rest[i + 1..j]).unwrap_or_default();
@@ -281,7 +282,7 @@ impl World {
 
     pub fn has_node(&self, k: usize) -> bool { self.nodes.contains_key(&k) }
     /// the name of the id `tid` as used by node `owner`
-    pub fn names_pos(&self, owner: usize, tid: &[u8]) -> Option<usize> { self.names.iter().position(|n| n.0 == owner && n.1 == tid) }
+    pub fn names_pos(&self, owner: usize, tid: &[u8]) -> Option<usize> { self.name_idx.get(&(owner, tid.to_vec())).copied() }
     /// text of a message that is delivered as an input (tokens issued by real nodes by name)
     pub fn body_text_in(&mut self, m: &Message) -> String { let t = self.body_text(m, false); self.rename(&t) }
     pub async fn sleep_until_activity_pub(&mut self, limit: u128, raw: &mut Vec<(std::time::Instant, String)>) -> u128 {
@@ -295,6 +296,7 @@ impl World {
         if line.is_empty() { "-".into() } else { line }
     }
 
+    pub fn tid_bytes(&self, spec: &str) -> Option<Vec<u8>> { self.resolve_tid(spec) }
     fn resolve_tid(&self, spec: &str) -> Option<Vec<u8>> {
         if let Some(h) = spec.strip_prefix('x') { return unhex(h); }
         let k: usize = spec.strip_prefix('#')?.parse().ok()?;
